@@ -3,7 +3,7 @@
 (* Trace validation for C13.  Line 1: {symz: symbol -> Z}.  Each further   *)
 (* line is one formula built in the real code:                             *)
 (*   orig    its structure (nested items with Dec counts)                  *)
-(*   toks    the tokens of str(formula)                                    *)
+(*   chars   the code points of str(formula); PTLex cuts them into tokens  *)
 (*   back    structure of formula(str(formula)), or exc                    *)
 (*   reprok  repr(f) = "formula('" + str(f) + "')"                         *)
 (*   nameok  a named copy prints its name (and repr shows it)              *)
@@ -14,9 +14,10 @@
 EXTENDS Json, IOUtils, TLCExt, Sequences, Integers, TLC, Dec
 Log == ndJsonDeserialize(IOEnv.TRACE_FILE)
 P == INSTANCE PTParse WITH SymZ <- Log[1].symz
+L == INSTANCE PTLex
 VARIABLE l
 Clause(e) ==
-  LET r == P!ParseAll(e.toks)
+  LET r == P!ParseAll(L!Lex(e.chars))
   IN IF ~r.ok THEN "PrintedIsInGrammar"
      ELSE IF ~P!SameFormula6(e.orig, r.items) THEN "PrintedDenotesOriginal"
      ELSE IF "exc" \in DOMAIN e.back THEN "ReparseGivesOriginal"
